@@ -383,7 +383,48 @@ def param_use(F, R):
              'parameter `%s` of the filter-vs-filter level relation never influences the result: the "$"-rule at index 0 cannot be honoured' % name)
 
 
+def level_validity(F, R):
+    """TopicFilterLevel::is_valid: every variant that carries text (Normal, System) refuses the wildcard
+    characters; extracted per variant from the match."""
+    b = F.one(r'^topic::TopicFilterLevel::is_valid$')
+    adt = F.adts[LEVEL]
+    ve = variant_edges(F, b, LEVEL)
+    texty = [v['name'] for v in adt['variants'] if v.get('fields')]
+    R.floor('C18.match-table', 'TopicFilterLevel variants with text', len(texty), 2)
+    conts = [(bi, t) for bi, t in b.calls() if re.search(r'::contains$', callee_name(t) or '')]
+    for v in texty:
+        edges = ve.get(v, [])
+        reg = arm_region(b, edges) if edges else set()
+        # blocks reachable from this variant's edge
+        reach = set()
+        for e in edges:
+            reach |= b.reachable(e[1])
+        hit = [(bi, t) for bi, t in conts if bi in reach]
+        chars = set()
+        for bi, t in hit:
+            for a in t['args'][1:]:
+                c = op_const(a)
+                sv = json.dumps(c) if c else ''
+                for ch in ('+', '#'):
+                    if ("'%s'" % ch) in sv or ('"%s"' % ch) in sv or ('%d' % ord(ch)) in sv:
+                        chars.add(ch)
+                p_ = op_place(a)
+                if p_:
+                    for d_ in b.whole_defs(p_['l']):
+                        if d_[2] == 'assign':
+                            sv = json.dumps(d_[3]['rv'])
+                            for ch in ('+', '#'):
+                                if ('%d' % ord(ch)) in sv or ("'%s'" % ch) in sv:
+                                    chars.add(ch)
+        # the result on that path is the negation of contains: a path from the variant edge to `true` constant without passing contains is a hole
+        true_sites = [bi for bi, j, s in b.assigns() if s['lhs']['l'] == 0 and s['rv']['k'] == 'use' and const_val(s['rv']['op']) == 1]
+        skip = [x for x in true_sites if any(x in b.reachable(e[1], avoid=[h for h, _ in conts]) for e in edges)]
+        R.ob('C18.match-table', 'TopicFilterLevel::is_valid|%s|wildcard-characters-refused' % v, bool(edges) and bool(hit) and not skip and chars >= {'+', '#'},
+             'a %s level containing + or # is accepted by the level validator although the string validator refuses it (chars tested: %s)' % (v, sorted(chars)), b.loc(0))
+
+
 def run(F, R):
+    level_validity(F, R)
     valid_dfa(F, R)
     match_tables(F, R)
     param_use(F, R)
